@@ -19,6 +19,68 @@ def hxl (b : Bytes) : String :=
 
 def unhx (s : String) : Option Bytes := if s == "~" then some [] else unhex s
 
+
+/-! ## Compact byte strings (`hexz`, must match `harness/src/c02.rs::unhexz`)
+
+Large payloads stay out of the case line: a byte string is a `_`-separated sequence of segments, each either plain hex,
+`Z<len>.<seed>` (`len` bytes of the fixed pseudo-random pattern `patByte seed`) or `Y<count>.<hex>` (the hex block
+repeated `count` times). A string without `_`, `Z`, `Y` is plain hex as before. -/
+
+def patByte (seed : UInt32) (i : Nat) : UInt8 :=
+  let x : UInt32 := i.toUInt32 * 2654435761 + seed
+  ((x >>> 24) ^^^ (x >>> 11)).toUInt8
+
+def patBytes (len seed : Nat) : Bytes :=
+  let s := seed.toUInt32
+  (List.range len).map (patByte s)
+
+def hexzLimit : Nat := 64 * 1024 * 1024
+
+def unhexzSeg (seg : String) : Option Bytes :=
+  if seg.startsWith "Z" then
+    match (seg.drop 1).toString.splitOn "." with
+    | [len, seed] =>
+      match len.toNat?, seed.toNat? with
+      | some l, some s => if l > hexzLimit then none else some (patBytes l s)
+      | _, _ => none
+    | _ => none
+  else if seg.startsWith "Y" then
+    match (seg.drop 1).toString.splitOn "." with
+    | [count, h] =>
+      match count.toNat?, unhex h with
+      | some c, some b => if c * b.length > hexzLimit then none else some (List.replicate c b).flatten
+      | _, _ => none
+    | _ => none
+  else unhex seg
+
+def unhexz (s : String) : Option Bytes :=
+  ((s.splitOn "_").mapM unhexzSeg).map List.flatten
+
+/-- Segments of `n` bytes (the last one shorter); `n = 0`: one segment. Linear, no deep recursion. -/
+def chunkEvery (n : Nat) (b : Bytes) : List Bytes :=
+  if n == 0 then [b]
+  else
+    let (acc, cur, _) := b.foldl
+      (fun (st : List Bytes × Bytes × Nat) x =>
+        let (acc, cur, m) := st
+        if m + 1 == n then ((x :: cur).reverse :: acc, [], 0) else (acc, x :: cur, m + 1))
+      (([] : List Bytes), ([] : Bytes), 0)
+    (if cur.isEmpty then acc else cur.reverse :: acc).reverse
+
+/-- Run-length form of a list of rendered entries: a maximal run of `n ≥ 2` equal consecutive entries `e` is written
+`e*n` (long keep-alive sessions repeat the same response thousands of times). -/
+def rleItem (s : String) (n : Nat) : String := if n == 1 then s else s!"{s}*{n}"
+
+def rle : List String → List String
+  | [] => []
+  | x :: rest =>
+    let (acc, cur, n) := rest.foldl
+      (fun (st : List String × String × Nat) y =>
+        let (acc, cur, n) := st
+        if y == cur then (acc, cur, n + 1) else (rleItem cur n :: acc, y, 1))
+      (([] : List String), x, 1)
+    (rleItem cur n :: acc).reverse
+
 /-- Cut specification of `harness/src/httpgen.rs::apply_cuts`. -/
 def applyCuts (bytes : Bytes) (spec : String) : List Bytes :=
   let n := bytes.length
@@ -48,6 +110,25 @@ def parseOracle (s : String) : List (Bytes × Option Bytes) :=
 
 def oracleFn (m : List (Bytes × Option Bytes)) (e : Bytes) : Option Bytes :=
   match m.find? (fun p => p.1 = e) with
+  | some (_, r) => r
+  | none => none
+
+/-- The same oracle as a bucket table (a forwarded chain of a thousand distinct addresses asks a thousand questions of a
+thousand-entry list otherwise). Build it ONCE per case with a `let`, then pass `tab.lookup` as `parseIp`. -/
+structure OracleTab where
+  buckets : Array (List (Bytes × Option Bytes))
+
+def oracleHash (b : Bytes) : Nat :=
+  ((b.foldl (fun (h : UInt64) x => (h ^^^ x.toUInt64) * 0x100000001b3) 0xcbf29ce484222325) % 1024).toNat
+
+def mkOracleTab (m : List (Bytes × Option Bytes)) : OracleTab :=
+  -- filled from the back so that, within a bucket, the order of `m` (first match wins) is kept
+  ⟨m.reverse.foldl (fun (a : Array (List (Bytes × Option Bytes))) p =>
+      let i := oracleHash p.1
+      a.set! i (p :: a[i]!)) (Array.replicate 1024 [])⟩
+
+def OracleTab.lookup (t : OracleTab) (e : Bytes) : Option Bytes :=
+  match (t.buckets[oracleHash e]!).find? (fun p => p.1 = e) with
   | some (_, r) => r
   | none => none
 
